@@ -293,6 +293,35 @@ Proof. exact (par_add_global F zero one add mul sub opp Fth small neg A B li j).
 
 End C07.
 
+(* non-vacuity of the distributed transpose theorem: a 4 x 4 matrix on two ranks, exact arithmetic over Z.  The package
+   built by the construction model passes the reverse check, both rank states are well formed, and the theorem's
+   conclusion is the computed value (A(2,0) = 7 appears as T(0,2)). *)
+From Coq Require Import ZArith Lia.
+Section C07_example.
+Local Open Scope Z_scope.
+Definition ex_small (z : Z) := Z.eqb z 0.
+Definition ex_st := assemble_all Z Z.add ex_small
+   [(0%nat,0%nat,2); (0%nat,3%nat,-1); (1%nat,1%nat,2); (1%nat,2%nat,5); (2%nat,2%nat,3); (2%nat,0%nat,7);
+    (3%nat,3%nat,4); (3%nat,1%nat,-2); (3%nat,0%nat,1)] [0;2;4]%nat [0;2;4]%nat.
+Definition ex_colmaps := map (fun rs : rank_state Z => rs_colmap rs) ex_st.
+Definition ex_ids := map (fun rs : rank_state Z => seq (rs_fc rs) (rs_nc rs)) ex_st.
+Definition ex_w := build_world [0;2;4]%nat ex_colmaps (fun _ r => r).
+Example C07_par_transpose_hypotheses_hold :
+  rev_ok ex_w ex_ids ex_colmaps = true /\ length ex_w = length ex_st /\
+  (forall p', (p' < length ex_st)%nat -> st_ok Z (nth p' ex_st (mkRS 0 0 0 0 (mkCsr 0 0 []) (mkCsr 0 0 []) []))).
+Proof.
+  split; [vm_compute; reflexivity|split; [reflexivity|]].
+  intros p' Hp. change (length ex_st) with 2%nat in Hp.
+  assert (Hc : p' = 0%nat \/ p' = 1%nat) by lia.
+  destruct Hc as [-> | ->]; vm_compute; repeat split; try reflexivity;
+    intros r Hr q Hq; repeat (destruct Hr as [<-|Hr]; [repeat (destruct Hq as [<-|Hq]; [simpl; lia|]); destruct Hq|]); destruct Hr.
+Qed.
+Example C07_par_transpose_value :
+  gden_row Z 0 Z.add (par_transpose Z Z.add ex_small ex_w ex_st 0) 0 (2 + 0) = 7 /\
+  drop Z 0 ex_small (gden_row Z 0 Z.add (nth 1 ex_st (mkRS 0 0 0 0 (mkCsr 0 0 []) (mkCsr 0 0 []) [])) 0 (0 + 0)) = 7.
+Proof. split; vm_compute; reflexivity. Qed.
+End C07_example.
+
 Print Assumptions C07_coo_to_csr.
 Print Assumptions C07_coo_to_csc.
 Print Assumptions C07_csr_to_coo.
